@@ -95,6 +95,19 @@ func main() {
 	out := xvlib.NewOut(args.Out)
 	defer out.Close()
 	ex := &Exec{scratch: args.Scratch, out: out, rng: xvlib.NewRng(args.Seed)}
+	// As a further engine of C03 (a transaction is confirmed through a block - the node's own block too - only if its
+	// inputs are outputs of the chain the block extends): only the findings that say so are C03's, the rest is C13's.
+	if args.Prop == "C03" {
+		defer func() {
+			var keep []xvlib.Violation
+			for _, v := range out.Stats.Violations {
+				if strings.HasPrefix(v.Key, "order-violates-dependency") || strings.HasPrefix(v.Key, "mined-block-not-replayable") || strings.HasPrefix(v.Key, "packed-block-not-replayable") {
+					keep = append(keep, v)
+				}
+			}
+			out.Stats.Violations = keep
+		}()
+	}
 	runLines := func(lines []string) {
 		for _, c := range splitCases(lines) {
 			for _, l := range c {
